@@ -80,6 +80,7 @@ struct VFd {
   bool default_chunking = false; int chunk_seed = 0;  // profile-driven chunking
   int n_send_ok = 0;          // datagrams / send calls accepted
   int n_send_calls = 0;       // send calls attempted (including failed ones)
+  int flush_api_seq = -1;    // UDP: top-level call in which a datagram deferred by EAGAIN finally left (others sent in that call may have been queued behind it)
   std::vector<std::pair<uint64_t, uint32_t>> eagain_payloads;   // UDP (payload hash, call seq) refused with EAGAIN: still in the library's out-buffer
   int n_calls_after_close = 0;
   int close_count = 0;
@@ -138,6 +139,7 @@ struct Tx {
   int behaviour = -1;    // server behaviour chosen
   std::vector<int> resp_ids;
   size_t stream_off = 0; // TCP: offset of frame in the connection's byte stream
+  bool order_unknown = false; // UDP: left in the same call as a deferred datagram of this socket; when the library queued it is not observable
   bool deferred = false; // UDP: this datagram was first refused with EAGAIN and went out later from the library's buffer
   uint32_t lseq = 0;     // call-log sequence number of the send attempt this datagram belongs to (= seq unless deferred)
 };
@@ -225,6 +227,7 @@ struct World {
   std::map<int, VFd> fds;
   int next_fd = 300;
   bool next_tx_deferred = false; uint32_t next_tx_lseq = 0;
+  bool next_tx_order_unknown = false;   // UDP: sent in the same call right after a deferred datagram on the same socket: may have been queued behind it
   bool fd_reuse = false;       // POSIX lowest-free-number allocation (default: numbers are never reused, which keeps descriptor identity trivial for the C10 oracles)
   int gen_ctr = 0;
   std::vector<VFd> graveyard;  // closed descriptors whose number has been handed out again
